@@ -413,6 +413,12 @@ class Scenario:
             if closed is not None and t_change >= closed - EPS:
                 continue
             nxt = [a for a in acts if a["t0"] >= t_change - 1e-9 and a["candidates"]]
+            if nxt and abs(nxt[0]["t0"] - t_change) <= 1e-9 and sorted(nxt[0]["candidates"]) != sorted(new_hosts):
+                # an attempt that starts at the very instant of the change may have been started by a back-off timer that
+                # fired BEFORE the update in program order (random timelines do land on 0.75 s, the second delay): which of the
+                # two came first cannot be told from the time stamps - not judged
+                ctx.count("host_change_ties_not_judged")
+                continue
             if nxt:
                 ctx.count("host_change_checks")
                 if sorted(nxt[0]["candidates"]) != sorted(new_hosts):
@@ -429,7 +435,9 @@ class Scenario:
                     self.violation("S8-attempt-after-shutdown", f"{len(later)} connection attempt(s) after shutdown() (first at +{later[0]['t0'] - self.shutdown_at:.2f} s; description updates after shutdown: {n_trig})")
                     return
             # any trigger strictly after the close counts, however soon (a random timeline may put one 10 ms later)
-            trig_after = [x for x in self.wakeups if x > closed + 1e-9]
+            # (a trigger ON the instant of the close counts whichever came first in program order: a caller's task created just
+            # before close() only runs after it)
+            trig_after = [x for x in self.wakeups if x >= closed - 1e-9]
             until = min(trig_after) if trig_after else float("inf")
             if self.shutdown_at is not None and self.shutdown_at > closed:
                 until = min(until, self.shutdown_at)
